@@ -9,6 +9,9 @@ def run(ctx):
     r = ctx.tlc("literals", "mc/MC_Lexer.tla", "mc/MC_Lexer_num.cfg", {"K": k}, min_states=170000, timeout=3400, heap="14g")
     ctx.replay("literals-parse-eval", "lexparse", r["dump"], min_cases=170000)
     ctx.replay("literals-scan", "lex", r["dump"], min_cases=170000)
+    # long literals: ten-digit blocks, up to 50 significant digits, fractions, exponents, separators
+    r = ctx.tlc("long-literals", "mc/MC_Lexer.tla", "mc/MC_Lexer_long.cfg", {"K": 6 if ctx.thorough else 5}, min_states=19000, timeout=3400, heap="14g")
+    ctx.replay("long-literals-parse-eval", "lexparse", r["dump"], min_cases=19000)
     return ctx.finish(
         rule="every string S of length <= %d over {0,1,9,.,e,E,+,-,_,a,x} embedded as [S]; the tree is compared with "
              "each literal projected to the exact decimal the real evaluator assigns to it; non-trivial = accepted texts" % k,
